@@ -1,4 +1,5 @@
 import Nsq.Model.Aggregate
+import Nsq.Proofs.AggregateDecode
 /-!
 With every guard of `Fixes.all` in place no function of the view model returns a `Fault`:
 helper lemmas for `Nsq.Props.C18.view_no_panic`.
@@ -140,10 +141,22 @@ theorem clientsOf_ok (node : String) (cl : List (Option Client)) : ∃ r, client
       simp only [clientsOf, hr]
       exact ⟨_, rfl⟩
 
-theorem chanNodeOf_ok (p : Producer) (topic : String) (c : Chan) : ∃ r, chanNodeOf Fixes.all p topic c = .ok r := by
+/-- Nothing in a report's `NodeStats` when it leaves GetNSQDStats (F54). -/
+def CleanNodes (as : List ChanNode) : Prop := ∀ a ∈ as, a.upNodes = []
+def CleanTs (ts : List TopicNode) : Prop := ∀ t ∈ ts, CleanNodes t.channels
+def CleanAggs (cs : List ChanAgg) : Prop := ∀ c ∈ cs, c.junk = []
+
+theorem cleanTs_append {a b : List TopicNode} (ha : CleanTs a) (hb : CleanTs b) : CleanTs (a ++ b) := by
+  intro t ht
+  rcases List.mem_append.mp ht with h | h
+  · exact ha t h
+  · exact hb t h
+
+theorem chanNodeOf_ok (p : Producer) (topic : String) (c : Chan) :
+    ∃ r, chanNodeOf Fixes.all p topic c = .ok r ∧ r.upNodes = [] := by
   obtain ⟨cl, h⟩ := clientsOf_ok p.addr c.clients
   simp only [chanNodeOf, h]
-  exact ⟨_, rfl⟩
+  exact ⟨_, rfl, rfl⟩
 
 theorem addNode_go_ok (key : String) (a : ChanNode) (m : ChanMap) : ∃ r, ChanMap.addNode.go Fixes.all key a m = .ok r := by
   induction m with
@@ -168,27 +181,31 @@ theorem addNode_ok (m : ChanMap) (key : String) (a : ChanNode) : ∃ r, ChanMap.
     exact ⟨_, rfl⟩
 
 theorem chansOfTopic_ok (p : Producer) (sel topic : String) (cs : List (Option Chan)) :
-    ∀ m, ∃ r, chansOfTopic Fixes.all p sel topic cs m = .ok r := by
+    ∀ m, ∃ r, chansOfTopic Fixes.all p sel topic cs m = .ok r ∧ CleanNodes r.1 := by
   induction cs with
-  | nil => intro m; exact ⟨([], m), rfl⟩
+  | nil => intro m; exact ⟨([], m), rfl, by intro a ha; cases ha⟩
   | cons c rest ih =>
     intro m
     cases c with
     | none => simpa [chansOfTopic] using ih m
     | some c =>
-      obtain ⟨cn, hcn⟩ := chanNodeOf_ok p topic c
+      obtain ⟨cn, hcn, hclean⟩ := chanNodeOf_ok p topic c
       unfold chansOfTopic
       simp only [hcn]
       obtain ⟨m', hm⟩ := addNode_ok m (if sel == "" then topic ++ ":" ++ c.name else c.name) cn
       simp only [hm]
-      obtain ⟨⟨cns, m''⟩, hr⟩ := ih m'
+      obtain ⟨⟨cns, m''⟩, hr, hc⟩ := ih m'
       simp only [hr]
-      exact ⟨_, rfl⟩
+      refine ⟨_, rfl, ?_⟩
+      intro a ha
+      cases ha with
+      | head => exact hclean
+      | tail _ ha => exact hc a ha
 
 theorem topicsOfNode_ok (p : Producer) (sel : String) (ts : List (Option Topic)) :
-    ∀ m, ∃ r, topicsOfNode Fixes.all p sel ts m = .ok r := by
+    ∀ m, ∃ r, topicsOfNode Fixes.all p sel ts m = .ok r ∧ CleanTs r.1 := by
   induction ts with
-  | nil => intro m; exact ⟨([], m), rfl⟩
+  | nil => intro m; exact ⟨([], m), rfl, by intro t ht; cases ht⟩
   | cons t rest ih =>
     intro m
     cases t with
@@ -197,73 +214,127 @@ theorem topicsOfNode_ok (p : Producer) (sel : String) (ts : List (Option Topic))
       unfold topicsOfNode
       split
       · exact ih m
-      · obtain ⟨⟨cns, m'⟩, hc⟩ := chansOfTopic_ok p sel t.name t.channels m
+      · obtain ⟨⟨cns, m'⟩, hc, hcl⟩ := chansOfTopic_ok p sel t.name t.channels m
         simp only [hc]
-        obtain ⟨⟨tns, m''⟩, hr⟩ := ih m'
+        obtain ⟨⟨tns, m''⟩, hr, hcl2⟩ := ih m'
         simp only [hr]
-        exact ⟨_, rfl⟩
+        refine ⟨_, rfl, ?_⟩
+        intro x hx
+        cases hx with
+        | head => exact hcl
+        | tail _ hx => exact hcl2 x hx
 
 theorem nsqdStatsGo_ok (w : World) (sel selc : String) (incl : Bool) (ps : List Producer) :
-    ∀ ts m failed, ∃ r, nsqdStatsGo Fixes.all w sel selc incl ps ts m failed = .ok r := by
+    ∀ ts m failed, CleanTs ts →
+      ∃ r, nsqdStatsGo Fixes.all w sel selc incl ps ts m failed = .ok r ∧ CleanTs r.1 := by
   induction ps with
-  | nil => intro ts m failed; exact ⟨(ts, m, failed), rfl⟩
+  | nil => intro ts m failed h; exact ⟨(ts, m, failed), rfl, h⟩
   | cons p rest ih =>
-    intro ts m failed
+    intro ts m failed hts
     unfold nsqdStatsGo
     split
-    · exact ih _ _ _
+    · exact ih _ _ _ hts
     · rename_i ans _
-      obtain ⟨⟨tns, m'⟩, h⟩ := topicsOfNode_ok p sel ans m
-      simp only [h]
-      exact ih _ _ _
+      obtain ⟨⟨tns, m'⟩, h, hcl⟩ := topicsOfNode_ok p sel ans m
+      simp only [AggregateDecode.nodeAnswer_all, h]
+      exact ih _ _ _ (cleanTs_append hts hcl)
 
 theorem nsqdStats_ok (w : World) (ps : List Producer) (sel selc : String) (incl : Bool) :
     ∃ r, nsqdStats Fixes.all w ps sel selc incl = .ok r := by
-  obtain ⟨⟨ts, m, failed⟩, h⟩ := nsqdStatsGo_ok w sel selc incl ps [] [] 0
+  obtain ⟨⟨ts, m, failed⟩, h, _⟩ := nsqdStatsGo_ok w sel selc incl ps [] [] 0 (by intro t ht; cases ht)
   unfold nsqdStats
   simp only [h]
   split <;> exact ⟨_, rfl⟩
 
-theorem mergeChan_go_ok (a : ChanNode) (cs : List ChanAgg) : ∃ r, mergeChan.go Fixes.all a cs = .ok r := by
+/-- The per-node reports GetNSQDStats hands to the handlers carry nothing in `NodeStats` (F54). -/
+theorem nsqdStats_clean (w : World) (ps : List Producer) (sel selc : String) (incl : Bool)
+    (ts : List TopicNode) (m : ChanMap) (f : Nat)
+    (h : nsqdStats Fixes.all w ps sel selc incl = .ok (.got (ts, m) f)) : CleanTs ts := by
+  obtain ⟨⟨ts', m', failed⟩, hgo, hcl⟩ :=
+    nsqdStatsGo_ok w sel selc incl ps [] [] 0 (by intro t ht; cases ht)
+  unfold nsqdStats at h
+  simp only [hgo] at h
+  split at h
+  · cases h
+  · simp only [Except.ok.injEq, Fetched.got.injEq, Prod.mk.injEq] at h
+    obtain ⟨⟨h1, _⟩, _⟩ := h
+    subst h1
+    exact hcl
+
+theorem chanAgg_add_junk {fx : Fixes} {c r : ChanAgg} {a : ChanNode} (h : c.add fx a = .ok r) : r.junk = c.junk := by
+  unfold ChanAgg.add at h
+  split at h
+  · cases h
+  · simp only [Except.ok.injEq] at h
+    subst h
+    rfl
+
+theorem mergeChan_go_ok (a : ChanNode) (cs : List ChanAgg) (hcs : CleanAggs cs) :
+    ∃ r, mergeChan.go Fixes.all a cs = .ok r ∧ CleanAggs r := by
   induction cs with
-  | nil => exact ⟨[], rfl⟩
+  | nil => exact ⟨[], rfl, by intro c hc; cases hc⟩
   | cons c rest ih =>
-    obtain ⟨r, hr⟩ := ih
+    have hrest : CleanAggs rest := fun x hx => hcs x (List.mem_cons_of_mem _ hx)
+    have hc0 : c.junk = [] := hcs c (by simp)
+    obtain ⟨r, hr, hcl⟩ := ih hrest
     unfold mergeChan.go
     simp only [hr]
     split
     · obtain ⟨c', hc⟩ := chanAgg_add_ok c a
-      simp only [hc]
-      exact ⟨_, rfl⟩
-    · exact ⟨_, rfl⟩
+      simp only [hc0, List.any_nil, Bool.false_eq_true, if_false, hc]
+      refine ⟨_, rfl, ?_⟩
+      intro x hx
+      cases hx with
+      | head => rw [chanAgg_add_junk hc]; exact hc0
+      | tail _ hx => exact hcl x hx
+    · refine ⟨_, rfl, ?_⟩
+      intro x hx
+      cases hx with
+      | head => exact hc0
+      | tail _ hx => exact hcl x hx
 
-theorem mergeChan_ok (cs : List ChanAgg) (a : ChanNode) : ∃ r, mergeChan Fixes.all cs a = .ok r := by
+theorem mergeChan_ok (cs : List ChanAgg) (a : ChanNode) (hcs : CleanAggs cs) (ha : a.upNodes = []) :
+    ∃ r, mergeChan Fixes.all cs a = .ok r ∧ CleanAggs r := by
   unfold mergeChan
   split
-  · exact mergeChan_go_ok a cs
-  · exact ⟨_, rfl⟩
+  · exact mergeChan_go_ok a cs hcs
+  · refine ⟨_, rfl, ?_⟩
+    intro x hx
+    rcases List.mem_append.mp hx with h | h
+    · exact hcs x h
+    · simp only [List.mem_singleton] at h
+      subst h
+      exact ha
 
-theorem mergeChans_ok (as : List ChanNode) : ∀ cs, ∃ r, mergeChans Fixes.all as cs = .ok r := by
+theorem mergeChans_ok (as : List ChanNode) : ∀ cs, CleanAggs cs → CleanNodes as →
+    ∃ r, mergeChans Fixes.all as cs = .ok r ∧ CleanAggs r := by
   induction as with
-  | nil => intro cs; exact ⟨cs, rfl⟩
+  | nil => intro cs h _; exact ⟨cs, rfl, h⟩
   | cons a rest ih =>
-    intro cs
-    obtain ⟨cs', h⟩ := mergeChan_ok cs a
-    simpa [mergeChans, h] using ih cs'
+    intro cs hcs has
+    obtain ⟨cs', h, hcl⟩ := mergeChan_ok cs a hcs (has a (by simp))
+    simpa [mergeChans, h] using ih cs' hcl (fun x hx => has x (List.mem_cons_of_mem _ hx))
 
-theorem topicAgg_add_ok (t : TopicAgg) (a : TopicNode) : ∃ r, t.add Fixes.all a = .ok r := by
-  obtain ⟨cs, h⟩ := mergeChans_ok a.channels t.channels
+theorem topicAgg_add_ok (t : TopicAgg) (a : TopicNode) (ht : CleanAggs t.channels) (ha : CleanNodes a.channels) :
+    ∃ r, t.add Fixes.all a = .ok r ∧ CleanAggs r.channels := by
+  obtain ⟨cs, h, hcl⟩ := mergeChans_ok a.channels t.channels ht ha
   unfold TopicAgg.add
   simp only [h, all_nilE2e, Bool.not_true, Bool.and_false, Bool.false_eq_true, if_false]
-  exact ⟨_, rfl⟩
+  exact ⟨_, rfl, hcl⟩
 
-theorem addAll_ok (as : List TopicNode) : ∀ t, ∃ r, TopicAgg.addAll Fixes.all as t = .ok r := by
+theorem addAll_ok' (as : List TopicNode) : ∀ t, CleanAggs t.channels → CleanTs as →
+    ∃ r, TopicAgg.addAll Fixes.all as t = .ok r := by
   induction as with
-  | nil => intro t; exact ⟨t, rfl⟩
+  | nil => intro t _ _; exact ⟨t, rfl⟩
   | cons a rest ih =>
-    intro t
-    obtain ⟨t', h⟩ := topicAgg_add_ok t a
-    simpa [TopicAgg.addAll, h] using ih t'
+    intro t ht has
+    obtain ⟨t', h, hcl⟩ := topicAgg_add_ok t a ht (has a (by simp))
+    simpa [TopicAgg.addAll, h] using ih t' hcl (fun x hx => has x (List.mem_cons_of_mem _ hx))
+
+/-- The topic handler's fold over the reports of GetNSQDStats never panics on the guarded tree. -/
+theorem addAll_ok (as : List TopicNode) (name : String) (has : CleanTs as) :
+    ∃ r, TopicAgg.addAll Fixes.all as { name := name } = .ok r :=
+  addAll_ok' as { name := name } (by intro c hc; cases hc) has
 
 /-- Every view of the guarded tree completes, and never through the router's panic handler. -/
 theorem view_ok (w : World) (req : Request) :
@@ -291,7 +362,7 @@ theorem view_ok (w : World) (req : Request) :
       | allFailed => exact ⟨_, rfl, by simp⟩
       | got tm f2 =>
         obtain ⟨ts, m⟩ := tm
-        obtain ⟨t, ht⟩ := addAll_ok ts { name := n }
+        obtain ⟨t, ht⟩ := addAll_ok ts n (nsqdStats_clean w ps n "" false ts m f2 h2)
         simp only [ht]
         exact ⟨_, rfl, by simp⟩
   | channel t c =>
